@@ -397,14 +397,19 @@ class Facts:
     def find_method(self, cls, name):
         """Resolve method `name` as seen from class `cls` (most-derived first);
         returns list of Func with bodies (all overloads of the nearest definer)."""
+        definers = []
         for c in self.bases(cls):
             cd = self.classes.get(c)
-            if not cd:
-                continue
-            ms = [m for m in cd["methods"] if m["n"] == name]
-            if ms:
-                return [self.funcs[m["m"]] for m in ms if m["m"] in self.funcs]
-        return []
+            if cd and any(m["n"] == name for m in cd["methods"]):
+                definers.append(c)
+        # final overriders: drop definers that are bases of another definer
+        final = [c for c in definers if not any(c != d and c in self.bases(d, strict=True) for d in definers)]
+        out = []
+        for c in final:
+            for m in self.classes[c]["methods"]:
+                if m["n"] == name and m["m"] in self.funcs:
+                    out.append(self.funcs[m["m"]])
+        return out
 
     def func_q(self, q):
         return self.by_q.get(q, [])
